@@ -149,6 +149,7 @@ type World struct {
 	cut     map[[2]uint64]bool
 
 	step  int
+	clock int // logical time: advances with every call into a node and every applied entry
 	seq   int
 	Trace []Action
 	Log   []string
@@ -456,6 +457,8 @@ func (w *World) ensureNode(id uint64) {
 			// restarted from its own disk
 			n.retired = false
 			w.Stats["unretired"]++
+			_, hi := w.restartRange(n)
+			w.start(n, hi, false)
 		}
 		return
 	}
